@@ -356,10 +356,11 @@ fn gen_table(rng: &mut Rng, pal: &[u8], pats: &[Vec<u8>]) -> Vec<Vec<u8>> {
 }
 
 fn gen_writes(rng: &mut Rng, n: usize) -> (Vec<WriteStep>, WriteStep) {
-    let mode = rng.weighted(&[30, 15, 15, 10, 30]);
+    let mode = rng.weighted(&[30, 15, 15, 10, 30, 8]);
     let mut w = Vec::new();
     let default = match mode {
         0 => WriteStep::All,
+        5 => WriteStep::AllButOne,
         1 => WriteStep::Accept(1),
         2 => {
             for _ in 0..n {
@@ -370,7 +371,8 @@ fn gen_writes(rng: &mut Rng, n: usize) -> (Vec<WriteStep>, WriteStep) {
         3 => WriteStep::Half,
         _ => {
             for _ in 0..n {
-                w.push(match rng.below(6) {
+                w.push(match rng.below(7) {
+                    6 => WriteStep::AllButOne,
                     0 => WriteStep::All,
                     1 => WriteStep::Accept(1),
                     2 => WriteStep::Accept(rng.range(1, 9)),
